@@ -120,6 +120,10 @@ static struct {
   uint64_t tso_max_age;
 } vs;
 
+// the OS thread that executes the virtual threads (native TLS: the engine itself is not built with emulated TLS).
+// Any other OS thread of the process (e.g. libFuzzer's RSS watchdog) must pass straight through every interposer.
+static __thread int vs_owner;
+#define ACTIVE (vs.active && vs_owner)
 static vs_result_t vs_static_res;
 vs_result_t* vs_res = &vs_static_res;
 int vs_real_sleep_calls = 0;
@@ -260,7 +264,7 @@ static size_t arena_block_size(void* p) {
   return hdr[1];
 }
 
-static inline int use_arena(void) { return vs.active && !vs.in_rt; }
+static inline int use_arena(void) { return ACTIVE && !vs.in_rt; }
 
 // a second bump region 0x90000000 bytes above the first: objects whose addresses differ by more than 2^31
 void* vs_alloc_far(size_t n) {
@@ -309,11 +313,11 @@ void free(void* p) {
     __libc_free(p);
     return;
   }
-  if (vs.active) tso_drain_self();
+  if (ACTIVE) tso_drain_self();
   size_t off = (char*)p - arena;
   size_t n = arena_block_size(p);
   if (n == (size_t)-1 || shadow[off >> 3] != 1) {
-    if (vs.active) vs_violation(shadow[off >> 3] == 2 ? "double_free" : "bad_free", "free(%p)", p);
+    if (ACTIVE) vs_violation(shadow[off >> 3] == 2 ? "double_free" : "bad_free", "free(%p)", p);
     return;
   }
   size_t rn = (n + 7) & ~7ul;
@@ -469,7 +473,7 @@ void vs_register_stack(const void* lo, size_t len) {
   }
   // stores made into the region before it was known to be a stack (the initial frame written by
   // fiber_context_init) must not stay buffered: they would later be hidden / re-applied on top of the live stack
-  if (vs.active && vs.cfg.tso && vs.cur) {
+  if (ACTIVE && vs.cfg.tso && vs.cur) {
     tso_capture_cur();
     vthread_t* t = vs.cur;
     int k = 0;
@@ -510,7 +514,7 @@ static inline void tso_capture(vthread_t* t) {
 static void tso_capture_cur(void) { tso_capture(vs.cur); }
 
 static void tso_drain_self(void) {
-  if (!vs.cfg.tso || !vs.active) return;
+  if (!vs.cfg.tso || !ACTIVE) return;
   vthread_t* t = vs.cur;
   tso_capture(t);
   t->sb_n = 0;
@@ -711,7 +715,7 @@ static inline void stall_check(void) {
 }
 // the running thread cannot usefully continue (spin / idle poll): let others run
 static void forced_yield(void) {
-  if (!vs.active) return;
+  if (!ACTIVE) return;
   budget_check();
   stall_check();
   vs.confirm_active = 0;
@@ -859,7 +863,7 @@ static inline void shadow_check(uintptr_t a, int size, int is_write) {
 }
 
 static inline void sched_point(uintptr_t a, int size, int is_write) {
-  if (!vs.active || vs.in_rt) return;
+  if (!ACTIVE || vs.in_rt) return;
   vthread_t* t = vs.cur;
   if (vs.cfg.tso) tso_capture(t);
   vs.points++;
@@ -892,7 +896,7 @@ void vs_op_begin(void) { vs.cur->in_op++; }
 void vs_op_end(void) { vs.cur->in_op--; }
 void vs_rt_enter(void) { vs.in_rt++; }
 void vs_rt_exit(void) { vs.in_rt--; }
-int vs_active(void) { return vs.active; }
+int vs_active(void) { return ACTIVE; }
 int vs_self(void) { return curth()->id; }
 uint64_t vs_points(void) { return vs.points; }
 
@@ -965,7 +969,7 @@ int vs_thread_create(void* (*fn)(void*), void* arg) {
   vthread_t* t = thread_new(fn, arg);
   vs.in_rt--;
   // PCT: a newly created higher-priority thread runs at once
-  if (vs.active && !vs.in_rt) {
+  if (ACTIVE && !vs.in_rt) {
     vs.points++;  // engine events get a point of their own so that replay can tell them apart
     if (vs.cfg.strategy == VS_STRAT_PCT && !vs.fair) {
       vthread_t* nt = pick_highest();
@@ -1109,10 +1113,12 @@ int vs_run_inproc(const vs_config_t* cfg, vs_main_fn fn, void* arg) {
   vs.inproc = 1;
   vs.exit_status = 0;
   int saved_errno = errno;
+  vs_owner = 1;
   vs.active = 1;
   vs_ctx_switch(&vs.exit_sp, sp);
   // back here after vs_exit_run
   vs.active = 0;
+  vs_owner = 0;
   vs.cur = th0;
   errno = saved_errno;
   return vs.exit_status;
@@ -1136,11 +1142,11 @@ void __tsan_vptr_read(void** vptr_p) { sched_point((uintptr_t)vptr_p, 8, 0); }
 
 static inline void on_read(void* a, int size) {
   sched_point((uintptr_t)a, size, 0);
-  if (vs.active && vs.cfg.tso && !vs.in_rt) tso_note_read((uintptr_t)a, size);
+  if (ACTIVE && vs.cfg.tso && !vs.in_rt) tso_note_read((uintptr_t)a, size);
 }
 static inline void on_write(void* a, int size) {
   sched_point((uintptr_t)a, size, 1);
-  if (vs.active && vs.cfg.tso && !vs.in_rt && size <= 16 && !is_stack_addr((uintptr_t)a)) {
+  if (ACTIVE && vs.cfg.tso && !vs.in_rt && size <= 16 && !is_stack_addr((uintptr_t)a)) {
     vthread_t* t = vs.cur;
     t->pend_addr = (uintptr_t)a;
     t->pend_size = size;
@@ -1162,7 +1168,7 @@ void __tsan_read_range(void* a, unsigned long n) {
   sched_point((uintptr_t)a, n ? (n > 4096 ? 4096 : (int)n) : 0, 0);
 }
 void __tsan_write_range(void* a, unsigned long n) {
-  if (vs.active && !vs.in_rt) tso_drain_self();
+  if (ACTIVE && !vs.in_rt) tso_drain_self();
   sched_point((uintptr_t)a, n ? (n > 4096 ? 4096 : (int)n) : 0, 1);
 }
 
@@ -1172,7 +1178,7 @@ static inline void atomic_pre(void* a, int size, int is_write) {
   sched_point((uintptr_t)a, size, is_write);
 }
 static inline void full_barrier(void) {
-  if (vs.active && vs.cfg.tso && !vs.in_rt) tso_drain_self();
+  if (ACTIVE && vs.cfg.tso && !vs.in_rt) tso_drain_self();
 }
 
 #define ATOMICS(T, n)                                                                                      \
@@ -1180,12 +1186,12 @@ static inline void full_barrier(void) {
     (void)mo;                                                                                               \
     vs.last_pc = __builtin_return_address(0);                                                               \
     atomic_pre((void*)a, sizeof(T), 0);                                                                     \
-    if (vs.active && vs.cfg.tso && !vs.in_rt) tso_note_read((uintptr_t)a, sizeof(T));                      \
+    if (ACTIVE && vs.cfg.tso && !vs.in_rt) tso_note_read((uintptr_t)a, sizeof(T));                      \
     return *a;                                                                                              \
   }                                                                                                         \
   void __tsan_atomic##n##_store(volatile T* a, T v, int mo) {                                               \
     atomic_pre((void*)a, sizeof(T), 1);                                                                     \
-    if (vs.active && vs.cfg.tso && !vs.in_rt) {                                                             \
+    if (ACTIVE && vs.cfg.tso && !vs.in_rt) {                                                             \
       if (mo == MO_SEQ_CST) {                                                                               \
         tso_drain_self();                                                                                   \
         *a = v;                                                                                             \
@@ -1292,7 +1298,7 @@ void __tsan_atomic_signal_fence(int mo) { (void)mo; }
 // ---------------------------------------------------------------------------
 // hooks from the guarded sites in /repo (machine_specific.h)
 void verif_spin(void) {
-  if (!vs.active || vs.in_rt) return;
+  if (!ACTIVE || vs.in_rt) return;
   vs.points++;
   forced_yield();
 }
@@ -1308,7 +1314,7 @@ void verif_fence(void) {
 // ---------------------------------------------------------------------------
 // mem* interposition (the optimiser emits these inside instrumented code)
 void* memset(void* d, int c, size_t n) {
-  if (vs.active && !vs.in_rt) {
+  if (ACTIVE && !vs.in_rt) {
     tso_drain_self();
     sched_point((uintptr_t)d, n ? (n > 4096 ? 4096 : (int)n) : 0, 1);
   }
@@ -1316,7 +1322,7 @@ void* memset(void* d, int c, size_t n) {
   return d;
 }
 void* memcpy(void* d, const void* s, size_t n) {
-  if (vs.active && !vs.in_rt) {
+  if (ACTIVE && !vs.in_rt) {
     tso_drain_self();
     sched_point((uintptr_t)s, n ? (n > 4096 ? 4096 : (int)n) : 0, 0);
     sched_point((uintptr_t)d, n ? (n > 4096 ? 4096 : (int)n) : 0, 1);
@@ -1325,7 +1331,7 @@ void* memcpy(void* d, const void* s, size_t n) {
   return d;
 }
 void* memmove(void* d, const void* s, size_t n) {
-  if (vs.active && !vs.in_rt) {
+  if (ACTIVE && !vs.in_rt) {
     tso_drain_self();
     sched_point((uintptr_t)s, n ? (n > 4096 ? 4096 : (int)n) : 0, 0);
     sched_point((uintptr_t)d, n ? (n > 4096 ? 4096 : (int)n) : 0, 1);
@@ -1339,7 +1345,7 @@ void* memmove(void* d, const void* s, size_t n) {
 void qsort(void* base, size_t n, size_t sz, int (*cmp)(const void*, const void*)) {
   static void (*real)(void*, size_t, size_t, int (*)(const void*, const void*));
   if (!real) real = (void (*)(void*, size_t, size_t, int (*)(const void*, const void*)))real_sym("qsort");
-  if (vs.active && !vs.in_rt) {
+  if (ACTIVE && !vs.in_rt) {
     tso_drain_self();
     sched_point((uintptr_t)base, 0, 1);
   }
@@ -1347,7 +1353,7 @@ void qsort(void* base, size_t n, size_t sz, int (*cmp)(const void*, const void*)
 }
 // full fence on behalf of the harness (operation boundary in TSO mode)
 void vs_drain(void) {
-  if (vs.active) tso_drain_self();
+  if (ACTIVE) tso_drain_self();
 }
 
 // ---------------------------------------------------------------------------
@@ -1393,7 +1399,7 @@ typedef int (*pthread_join_fn)(pthread_t, void**);
 static void* real_sym(const char* name);
 
 int pthread_create(pthread_t* out, const pthread_attr_t* attr, void* (*fn)(void*), void* arg) {
-  if (!vs.active) {
+  if (!ACTIVE) {
     static pthread_create_fn real;
     if (!real) real = (pthread_create_fn)real_sym("pthread_create");
     return real(out, attr, fn, arg);
@@ -1403,7 +1409,7 @@ int pthread_create(pthread_t* out, const pthread_attr_t* attr, void* (*fn)(void*
   return 0;
 }
 int pthread_join(pthread_t t, void** ret) {
-  if (!vs.active) {
+  if (!ACTIVE) {
     static pthread_join_fn real;
     if (!real) real = (pthread_join_fn)real_sym("pthread_join");
     return real(t, ret);
@@ -1415,7 +1421,7 @@ int pthread_join(pthread_t t, void** ret) {
 }
 static int vs_ever_active;
 pthread_t pthread_self(void) {
-  if (!vs.active && !vs_ever_active) {
+  if (!ACTIVE && !(vs_ever_active && vs_owner)) {
     static pthread_t (*real)(void);
     if (!real) real = (pthread_t(*)(void))real_sym("pthread_self");
     return real();
@@ -1449,19 +1455,19 @@ static void real_sleep_reached(const char* which) {
   if (vs_on_real_sleep) vs_on_real_sleep(which);
 }
 static int trap_usleep(useconds_t us) {
-  if (!vs.active) return (int)syscall(SYS_nanosleep, &(struct timespec){us / 1000000, (us % 1000000) * 1000}, 0);
+  if (!ACTIVE) return (int)syscall(SYS_nanosleep, &(struct timespec){us / 1000000, (us % 1000000) * 1000}, 0);
   real_sleep_reached("usleep");
   forced_yield();
   return 0;
 }
 static unsigned trap_sleep(unsigned s) {
-  if (!vs.active) return (unsigned)syscall(SYS_nanosleep, &(struct timespec){s, 0}, 0);
+  if (!ACTIVE) return (unsigned)syscall(SYS_nanosleep, &(struct timespec){s, 0}, 0);
   real_sleep_reached("sleep");
   forced_yield();
   return 0;
 }
 static int trap_nanosleep(const struct timespec* a, struct timespec* b) {
-  if (!vs.active) return (int)syscall(SYS_nanosleep, a, b);
+  if (!ACTIVE) return (int)syscall(SYS_nanosleep, a, b);
   real_sleep_reached("nanosleep");
   forced_yield();
   return 0;
@@ -1509,7 +1515,7 @@ void vs_program_advanced(void) { vs.marker++; }
 void vs_set_quiescence_cb(vs_quiescence_fn fn) { vs.qcb = fn; }
 
 int epoll_wait(int epfd, struct epoll_event* ev, int maxev, int timeout) {
-  if (!vs.active) return (int)syscall(SYS_epoll_pwait, epfd, ev, maxev, timeout, 0, 8);
+  if (!ACTIVE) return (int)syscall(SYS_epoll_pwait, epfd, ev, maxev, timeout, 0, 8);
   if (vs.in_rt) return (int)syscall(SYS_epoll_pwait, epfd, ev, maxev, 0, 0, 8);
   tso_drain_self();
   vs.points++;
@@ -1598,8 +1604,8 @@ void __assert_fail(const char* expr, const char* file, unsigned line, const char
     if (*p == '/') base = p + 1;
   char kind[96];
   snprintf(kind, sizeof kind, "assert:%s:%u", base, line);
-  if (vs.active || vs_res->status == 0) {
-    if (vs.active) vs_violation(kind, "%s in %s (vthread %d, point %llu)", expr, func, vs.cur->id, (unsigned long long)vs.points);
+  if (ACTIVE || vs_res->status == 0) {
+    if (ACTIVE) vs_violation(kind, "%s in %s (vthread %d, point %llu)", expr, func, vs.cur->id, (unsigned long long)vs.points);
   }
   fprintf(stderr, "assertion failed outside a run: %s:%u: %s: %s\n", file, line, func, expr);
   _exit(98);
